@@ -23,15 +23,21 @@ ENV = dict(os.environ, GOFLAGS='-mod=mod', GOPROXY='off', GOSUMDB='off', GOTOOLC
 
 
 def sh(cmd, cwd=None, timeout=None, env=None):
+    """Run a command in its own process group; on timeout kill the whole group (coqc/coqchk children included)."""
+    import signal
     t = time.time()
+    p = subprocess.Popen(cmd, cwd=cwd, shell=isinstance(cmd, str), stdout=subprocess.PIPE, stderr=subprocess.STDOUT,
+                         env=env or ENV, start_new_session=True)
     try:
-        p = subprocess.run(cmd, cwd=cwd, shell=isinstance(cmd, str), capture_output=True, text=True, timeout=timeout, env=env or ENV, errors='replace')
-        return p.returncode, p.stdout + p.stderr, time.time() - t
-    except subprocess.TimeoutExpired as e:
-        out = (e.stdout or b'')
-        if isinstance(out, bytes):
-            out = out.decode(errors='replace')
-        return 124, out + '\nTIMEOUT after %ss' % timeout, time.time() - t
+        out, _ = p.communicate(timeout=timeout)
+        return p.returncode, out.decode(errors='replace'), time.time() - t
+    except subprocess.TimeoutExpired:
+        try:
+            os.killpg(p.pid, signal.SIGKILL)
+        except OSError:
+            pass
+        out, _ = p.communicate()
+        return 124, (out or b'').decode(errors='replace') + '\nTIMEOUT after %ss' % timeout, time.time() - t
 
 
 class Lock:
